@@ -137,10 +137,12 @@ pub fn run(ctx: &Ctx) {
      (structured) random data items encoded with random head widths, indefinite lengths, chunking and float widths; \
      (mutated) one byte-level mutation of a structured encoding: prefixes, bit flips, breaks inserted/removed, \
      reserved ai, lying length heads, forced indefinite, trailing bytes; (bad_strings) hand-built chunk / UTF-8 \
-     violations. Non-trivial: the input has >= 2 heads, or is a non-empty ill-formed input; distinct = distinct bytes.",
+     violations; (long_strings) text / byte strings of 4094..16385 bytes and arrays / maps of 4095..8193 elements \
+     around the decoder's 4096 pre-allocation step: definite, wrapped, indefinite / chunked, and heads claiming one \
+     element more or fewer than present. Non-trivial: the input has >= 2 heads, or is a non-empty ill-formed input; distinct = distinct bytes.",
   );
   ctx.assume("all NaN bit patterns are one data-model value; widening f16/f32 -> f64 is value preserving");
-  ctx.assume("inputs are bounded (<= ~1 KiB, nesting <= 8 for generated items; deeper nesting arises only from mutations)");
+  ctx.assume("generated inputs are bounded (<= ~1 KiB, nesting <= 8 for generated items; deeper nesting arises only from mutations); long inputs (up to ~40 KiB) come from the fixed long_strings families only");
 
   // exhaustive scopes
   let maxlen = ctx.tier.pick(3usize, 4usize);
@@ -267,6 +269,45 @@ pub fn run(ctx: &Ctx) {
         ind.push(0xff);
         long.push(ind);
       }
+    }
+  }
+  // arrays and maps around the same pre-allocation bound: definite, indefinite, and a head that claims one more
+  // element than the input holds (must be an error, not a shorter container)
+  for &n in &[4095usize, 4096, 4097, 8193] {
+    let mut items: Vec<u8> = vec![];
+    let mut pairs: Vec<u8> = vec![];
+    for i in 0..n {
+      let mut e = vec![];
+      match i % 3 {
+        0 => cbor::head(&mut e, 0, i as u64, 0),
+        1 => cbor::head(&mut e, 1, (i % 300) as u64, 0),
+        _ => {
+          e.push(0x61);
+          e.push(b'a' + (i % 26) as u8);
+        }
+      }
+      items.extend_from_slice(&e);
+      cbor::head(&mut pairs, 0, i as u64, 0);
+      pairs.extend_from_slice(&e);
+    }
+    for (mt, body) in [(4u8, &items), (5u8, &pairs)] {
+      let mut def = head(mt, n);
+      def.extend_from_slice(body);
+      long.push(def.clone());
+      let mut wrapped = vec![0x82];
+      wrapped.extend_from_slice(&def);
+      wrapped.push(0x01);
+      long.push(wrapped);
+      let mut ind = vec![(mt << 5) | 31];
+      ind.extend_from_slice(body);
+      ind.push(0xff);
+      long.push(ind);
+      let mut lying = head(mt, n + 1);
+      lying.extend_from_slice(body);
+      long.push(lying);
+      let mut trailing = head(mt, n - 1);
+      trailing.extend_from_slice(body);
+      long.push(trailing);
     }
   }
   sweep(ctx, "long_strings", &long, |b, st| eval(ctx, "long_strings", b, "long_string", st));
